@@ -36,6 +36,8 @@ mod mapper_mon;
 mod vclock;
 mod loop_mon;
 mod systemd_mon;
+mod keytable;
+mod wire_mon;
 
 use std::collections::HashMap;
 
@@ -60,6 +62,7 @@ fn main() {
     "mapper" => mapper_mon::run(&opts),
     "loop" => loop_mon::run(&opts),
     "systemd" => systemd_mon::run(&opts),
+    "wire" => wire_mon::run(&opts),
     "replay" => common::replay(&opts),
     "merge" => common::merge_distinct(&args[2..].to_vec()),
     _ => usage()
